@@ -288,6 +288,9 @@ def r13d(ctx, P):
     ctx.floor(rid, n, 1, "per-segment collector.finish() in search")
 
 
+THOROUGH_FEATURES = ['r13d']
+
+
 def run(ctx, progs):
     P = progs.get("default")
     r13a(ctx, P)
